@@ -19,6 +19,7 @@
 EXTENDS Integers, Sequences, FiniteSets, TLC
 
 CONSTANTS NRows, MaxDepth, Wrapped, HasWith,
+          Dev_MarkerInCallerRow,      \* the <- back-reference is written into the caller's row (now: into a copy of it)
           Dev_PostProcessorCleanup,   \* subquery / EXISTS markers removed only by post-processors (success path)
           Dev_CteInCallerMap,         \* WITH entries written into the caller's map unless Wrapped
           Dev_ExistsInPlace           \* EXISTS writes the outer row's keys into the nested objects
@@ -44,14 +45,15 @@ BuildCte ==
 Enter(site) ==
     /\ pc = "rows" /\ row <= NRows /\ Len(stack) < MaxDepth
     /\ stack' = Append(stack, [site |-> site, had |-> mark[row]])
-    /\ mark' = [mark EXCEPT ![row] = TRUE]
+    /\ mark' = IF Dev_MarkerInCallerRow THEN [mark EXCEPT ![row] = TRUE] ELSE mark
     /\ nested' = IF site = "exists" /\ Dev_ExistsInPlace THEN [nested EXCEPT ![row] = TRUE] ELSE nested
     /\ UNCHANGED <<top, pend, row, pc, res>>
 
 \* how a frame ends (normally or by unwinding): comparisons always clean up with defer; subqueries
 \* and EXISTS restore what they found (as coded now) or leave the cleanup to a post-processor
 Unwound(f, m, p) ==
-    IF f.site = "cmp" THEN [m |-> [m EXCEPT ![row] = FALSE], p |-> p]
+    IF ~Dev_MarkerInCallerRow THEN [m |-> m, p |-> p]
+    ELSE IF f.site = "cmp" THEN [m |-> [m EXCEPT ![row] = FALSE], p |-> p]
     ELSE IF Dev_PostProcessorCleanup THEN [m |-> m, p |-> p \cup {row}]
     ELSE [m |-> [m EXCEPT ![row] = f.had], p |-> p]
 
@@ -97,6 +99,8 @@ MTypeOK == pc \in {"new", "rows", "done"} /\ res \in {"none", "ok", "err"} /\ ro
 DocRestored ==
     pc = "done" => /\ \A r \in Rows : ~mark[r] /\ ~nested[r]
                    /\ top = {}
+\* C13 (one document shared by concurrent queries): the caller's rows are not written at any time
+RowsUntouched == \A r \in Rows : ~mark[r] /\ ~nested[r]
 \* between two rows no marker is left behind either (a later row's evaluation never sees one)
 CleanBetweenRows == (pc = "rows" /\ stack = <<>>) => \A r \in Rows : (r < row /\ pend = {}) => ~mark[r]
 \* every behaviour ends
